@@ -142,7 +142,7 @@ void h_matid(void) {
 }
 
 // ---- O1: one make/unmake step from an arbitrary state.  verif_param: 0..2 white {piece,king,pawn}, 3..5 black.
-void h_step(void) {
+static void stepBody(bool checkMake, bool checkUndo) {
     PositionBase pre; int cnt[13]; unsigned mid;
     symbolicState(pre, cnt, mid);
     int kind = (int)verif_param() % 3; bool wtm = verif_param() < 3;
@@ -183,8 +183,7 @@ void h_step(void) {
                 int enemyPawn = wtm ? Piece::BPAWN : Piece::WPAWN;
                 if (tx > 0) { ASSUME(localInv(pre, to - 1)); if (pre.squares[Square(to - 1)] == enemyPawn) expectEp = true; }
                 if (tx < 7) { ASSUME(localInv(pre, to + 1)); if (pre.squares[Square(to + 1)] == enemyPawn) expectEp = true; }
-                // global consistency of the enemy pawn bitboard on that rank is what the code reads: tie it to the squares
-                for (int x = 0; x < 8; x++) ASSUME(localInv(pre, (to & ~7) + x));
+                // (the code reads the enemy pawn set through BitBoard::epMaskW/B[file], i.e. exactly those two neighbours: C01-O1-leapers)
             }
         } else {
             ASSUME((dx == 1 || dx == -1) && dy == dir && (c != 0 || to == ep));
@@ -213,6 +212,7 @@ void h_step(void) {
     const PositionBase& post = pos;
     verif_observe(post.hashKey); verif_observe(post.pHashKey); verif_observe((U64)(unsigned)post.matId.hash);
 
+    if (checkMake) {
     int win[5] = {from, to, aux[0], aux[1], aux[2]};
     U64 wmask = 0; for (int k = 0; k < 5; k++) if (win[k] >= 0) wmask |= 1ULL << win[k];
     // (i) frame: nothing outside the window changes
@@ -275,11 +275,15 @@ void h_step(void) {
     // (v) inductiveness of the castle / en-passant invariants
     CHECK(castleInv(post), "castling right implies king and rook at home afterwards");
     CHECK(epInv(post), "en-passant square consistent afterwards");
+    }
     // (vi) unmake restores a bit-identical state
-    pos.unMakeMove(m, ui);                                // real
-    CHECK(sameState(post, pre), "unMakeMove restores every field");
-    END();
+    if (checkUndo) {
+        pos.unMakeMove(m, ui);                            // real
+        CHECK(sameState(post, pre), "unMakeMove restores every field");
+    }
 }
+void h_step(void) { stepBody(true, false); END(); }      // makeMove: frame, invariant, deltas, rules
+void h_undo(void) { stepBody(false, true); END(); }      // makeMove followed by unMakeMove: bit-identical state
 
 // ---- O3: single-square primitives from an arbitrary state
 void h_setpiece(void) {
